@@ -16,6 +16,11 @@ PROP = {
         "(5) no silent truncation: wire_valid()==Ok => header <= 1020 and multiple of 4, payload <= 65535, UDP 8+len <= 65535 (payload length symbolic <= 70000)",
     ],
     "not_decided": [
+        "clauses (2) and (3): harnesses c03_hdr_spec_empty_onehop, c03_hdr_spec_standard_2x2, c03_udp_packet_empty_path compile and start, "
+        "but were not run to completion in round 2 (verifier killed after 7 min on a machine at load 50); registered in tier thorough until measured",
+        "clause (4) add_slice: c03_cksum_add_slice_{aligned,unaligned}_{64,256} compile and start but did not finish within 12 min under load "
+        "(u16 fold over a symbolic-length slice + byte-wise spec loop); in tier thorough until measured / decomposed; "
+        "the alignment decision (c03_cksum_alignment_witness) and add_u16/u32/u64/fold/checksum (c03_cksum_words_fold) are proved",
         "(6) canonical re-encode of accepted byte strings: not implemented in this round",
         "(3) for SCMP packets and for UDP packets over standard paths: not implemented in this round",
         "fixed SCMP message headers leaf round trips: not implemented in this round",
@@ -46,9 +51,9 @@ PROP = {
                 H("c03_leaf_info_hop", "P", what="InfoField / HopField encode exact size, wire format, round trip"),
                 H("c03_leaf_host_addr_known", "P", what="WireHostAddr V4/V6/Svc encode, nibble, round trip"),
                 H("c03_leaf_host_addr_unknown", "P", what="WireHostAddr Unknown 4/8/12/16 (canonical ids) encode, nibble, round trip"),
-                H("c03_hdr_spec_empty_onehop", "P", what="header with empty / one-hop path: independent spec reader, lengths, round trip", timeout=1800),
-                H("c03_hdr_spec_standard_2x2", "B", bound="<= 2 segments x <= 2 hops", what="header with standard path: independent spec reader, lengths, round trip", timeout=1800),
-                H("c03_udp_packet_empty_path", "B", bound="UDP payload <= 8 bytes, empty path", what="whole UDP packet: size, HdrLen, PayloadLen, UDP length, checksum verifies (RFC 1071 spec)", timeout=1800),
+                H("c03_hdr_spec_empty_onehop", "P", tier="thorough", what="header with empty / one-hop path: independent spec reader, lengths, round trip", timeout=1800),
+                H("c03_hdr_spec_standard_2x2", "B", tier="thorough", bound="<= 2 segments x <= 2 hops", what="header with standard path: independent spec reader, lengths, round trip", timeout=1800),
+                H("c03_udp_packet_empty_path", "B", tier="thorough", bound="UDP payload <= 8 bytes, empty path", what="whole UDP packet: size, HdrLen, PayloadLen, UDP length, checksum verifies (RFC 1071 spec)", timeout=1800),
             ],
         },
         {
@@ -62,8 +67,8 @@ PROP = {
             "harnesses": [
                 H("c03_cksum_alignment_witness", "P", what="align_offset decision follows the address parity"),
                 H("c03_cksum_words_fold", "P", what="add_u16/add_u32/add_u64/fold_checksum/checksum, full domain"),
-                H("c03_cksum_add_slice_aligned_64", "B", bound="slice length <= 64", what="add_slice == RFC 1071 sum, even start address"),
-                H("c03_cksum_add_slice_unaligned_64", "B", bound="slice length <= 64", what="add_slice == RFC 1071 sum, odd start address"),
+                H("c03_cksum_add_slice_aligned_64", "B", tier="thorough", bound="slice length <= 64", what="add_slice == RFC 1071 sum, even start address"),
+                H("c03_cksum_add_slice_unaligned_64", "B", tier="thorough", bound="slice length <= 64", what="add_slice == RFC 1071 sum, odd start address"),
                 H("c03_cksum_add_slice_aligned_256", "B", tier="thorough", bound="slice length <= 256", what="add_slice == RFC 1071 sum, even start address", timeout=3600),
                 H("c03_cksum_add_slice_unaligned_256", "B", tier="thorough", bound="slice length <= 256", what="add_slice == RFC 1071 sum, odd start address", timeout=3600),
             ],
